@@ -116,10 +116,6 @@ func replayViolation(e *Engine, j *Job, v *Violation) {
 	os.WriteFile(vecPath, vec, 0o644)
 	meta, _ := json.MarshalIndent(map[string]interface{}{"job": j.Name, "pkg": j.Pkg, "func": j.Func, "args": j.Args, "id": v.ID, "kind": v.Kind, "trace": v.Trace}, "", " ")
 	os.WriteFile(filepath.Join(dir, "meta.json"), meta, 0o644)
-	if j.Pkg == "main" {
-		replayMainViolation(e, j, v, dir)
-		return
-	}
 	b := buildReplayBinary(j)
 	if b.err != "" {
 		v.ReplayOut = b.err
@@ -136,6 +132,9 @@ func replayViolation(e *Engine, j *Job, v *Violation) {
 		ctx, cancel := context.WithTimeout(context.Background(), 15*time.Second)
 		cmd := exec.CommandContext(ctx, b.bin, "-test.run", "^TestVerifReplay$", "-test.timeout", "300s")
 		cmd.Env = append(os.Environ(), "VERIF_VECTOR="+vecPath)
+		if j.Pkg == "main" {
+			cmd.Env = append(cmd.Env, "VERIF_BORNO_BIN="+bornoBinary())
+		}
 		cmd.Dir = dir
 		out, _ := cmd.CombinedOutput()
 		timedOut := ctx.Err() == context.DeadlineExceeded
@@ -171,8 +170,34 @@ func replayViolation(e *Engine, j *Job, v *Violation) {
 	os.WriteFile(filepath.Join(dir, "native_output.txt"), []byte(transcript.String()), 0o644)
 }
 
-func replayMainViolation(e *Engine, j *Job, v *Violation, dir string) {
-	v.ReplayOut = "package main harnesses are replayed through the built binary (see check runner)"
+var (
+	bornoOnce sync.Once
+	bornoPath string
+)
+
+// bornoBinary builds the repository's CLI as it is now (no overlay) for process-level replays.
+func bornoBinary() string {
+	bornoOnce.Do(func() {
+		replayMu.Lock()
+		if replayTmp == "" {
+			d, err := os.MkdirTemp("", "bsym-replay-")
+			if err == nil {
+				replayTmp = d
+			}
+		}
+		tmp := replayTmp
+		replayMu.Unlock()
+		out := filepath.Join(tmp, "borno-cli")
+		cmd := exec.Command("go", "build", "-o", out, ".")
+		cmd.Dir = gCfg.Repo
+		cmd.Env = append(os.Environ(), "GOFLAGS=-mod=readonly", "GOPROXY=off", "GOSUMDB=off", "GOTOOLCHAIN=local")
+		if b, err := cmd.CombinedOutput(); err != nil {
+			fmt.Fprintf(os.Stderr, "building the CLI failed: %v\n%s", err, b)
+			return
+		}
+		bornoPath = out
+	})
+	return bornoPath
 }
 
 func runReplayFile(path string) int {
